@@ -954,6 +954,9 @@ def run(ctx: C.Ctx):
         # ---- the EnvWizard copy of the dump-function generator, tied to the GenDump model modulo a stated substitution
         from . import c15_genenvdump
         c15_genenvdump.run_genenvdump(ctx)
+        # ---- the skeleton of the v1 load-function generator as text (model: lean/DW/Model/GenLoadV1.lean)
+        from . import c15_genloadv1
+        c15_genloadv1.run_genloadv1(ctx)
     finally:
         model.SAFE = False
         logging.disable(logging.NOTSET)
